@@ -220,6 +220,11 @@ then `q1` is evaluated. One attribute node with two parents is outside the tree-
 prediction is made (`*`); the specification is `q1`'s isolated result over `f = T, F, F`. -/
 def run (s : Sexp) : String :=
   match s with
+  -- `(sharedroot)`: the fixed witness of F-C03-7 (open) — `xf = x.f; q1 = an(entity(x, xf))` is evaluated, then
+  -- `q2 = an(entity(x, xf == False))` is built and evaluated over `f = F, T`: the shared node keeps the conditions root it
+  -- cached in `q1`, reads its falsy value as a false result and `q2` returns nothing. One node in two roles across queries
+  -- is outside the tree-shaped grammar of the models: no prediction (`*`); the specification is `q2` run alone
+  | .list [.atom "sharedroot"] => "model=*\tspec=[(o0)]\ttrig=F-C03-7"
   | .list [.atom "sharedsub"] => "model=[(o0)]\tspec=[(o0)]\ttrig="
   -- `(rulereeval)`: a rule query (base rule + one alternative) evaluated twice; since fix 10ab5ee every
   -- evaluation resets the selectors' `concluded_before` sets first, so the second evaluation yields what the first
